@@ -88,7 +88,8 @@ def run(ctx):
                     ops.append(reads[k])
                 if k < len(muts):
                     ops.append(muts[k])
-            ops += reads + [["closefs"]]
+            # what the rejected calls tried to create does not exist afterwards, and every listing is the one of the untouched image
+            ops += reads + [["exists", "/newdir"], ["exists", "/newfile.txt"], ["exists", "/brandnew.bin"], ["listdir", "/"]] + [["closefs"]]
             rep = dict(volume=meta, volume_label=label, dirty=how, mount=dict(read_only=True), ops=ops)
             ctx.evaluations += 1
             ctx.dist["dirty:" + how] += 1
@@ -97,6 +98,14 @@ def run(ctx):
 
             def on_step(k, op, ires, ir):
                 ctx.dist[op[0]] += 1
+                if op[0] == "listdir" and ires[0] == "ok":
+                    base = op[1].rstrip("/")
+                    want = sorted(p[len(base) + 1:] for p in want_tree if p.startswith(base + "/") and "/" not in p[len(base) + 1:])
+                    if sorted(ires[1]) != want:
+                        extra = sorted(set(ires[1]) ^ set(want))
+                        ctx.violation(f"{label}/{how}: listdir {op[1]!r} of the read-only mount differs from the image's tree: {extra[:3]}", "ro-listing-differs", dict(rep, at=k))
+                if op[0] == "exists" and op[1] in ("/newdir", "/newfile.txt", "/brandnew.bin") and ires == ("ok", True):
+                    ctx.violation(f"{label}/{how}: {op[1]!r}, whose creation was rejected, exists on the read-only mount", "ro-phantom-entry", dict(rep, at=k))
                 if op[0] in ("makedir", "create", "remove", "removedir", "removetree", "setinfo", "write", "truncate") or \
                         (op[0] == "open" and op[3] in ("w", "w+", "x", "x+")):     # opening an existing file for append / update changes nothing by itself
                     if ires[0] == "ok" and not (op[0] == "create" and ires[1] is False):
